@@ -40,6 +40,9 @@ def sv_component(entries, kind='ok', unknown=None):
     for i, (nm, seq) in enumerate(entries):
         if unknown and unknown[i % len(unknown)]:
             body += rc.enc_tlv((0xF0, 0x3E8, 0xce)[i % 3], b'ext')
+        if isinstance(nm, str) and nm == 'raw':
+            body += seq              # a ready-made (malformed) entry
+            continue
         e = b''
         if nm is not None:
             e += rc.enc_name(nm)
@@ -116,10 +119,10 @@ def gen_history(rng):
 def gen_vector_spec(rng, nodes):
     """A vector described relative to the current local vector (resolved at run time)."""
     kind = rng.choice(['newer', 'newer', 'older', 'equal', 'incomparable', 'unknown-node', 'self-too-much', 'self-ok',
-                       'no-seq', 'no-id', 'undecodable', 'wrong-length', 'empty'])
-    big = rng.random() < 0.08       # sequence numbers are 64-bit: some vectors jump across the 2**16 / 2**32 width boundaries
+                       'no-seq', 'no-id', 'undecodable', 'undecodable-inner', 'wrong-length', 'empty'])
+    big = rng.random() < 0.12       # sequence numbers are 64-bit: some vectors jump across the 2**16 / 2**32 width boundaries
     return {'kind': kind, 'pick': [rng.random() for _ in range(6)], 'unknown': [rng.random() < 0.5 for _ in range(4)] if rng.random() < 0.2 else None,
-            'delta': [rng.choice([2**16 - 1, 2**16, 2**31, 2**32 - 1, 2**32, 2**32 + 7, 2**48]) if big and rng.random() < 0.6 else rng.randint(1, 3) for _ in range(6)]}
+            'delta': [rng.choice([2**16 - 1, 2**16, 2**31, 2**32 - 1, 2**32, 2**32 + 7, 2**48, 2**63 - 1, 2**63, 2**63 + 9, 2**64 - 2]) if big and rng.random() < 0.6 else rng.randint(1, 3) for _ in range(6)]}
 
 
 def resolve_vector(spec, local, self_seq, nodes):
@@ -137,19 +140,19 @@ def resolve_vector(spec, local, self_seq, nodes):
                 continue
             c = cur(n)
             if kind == 'newer':
-                ents.append((n, c + spec['delta'][i]))
+                ents.append((n, min(c + spec['delta'][i], 2**64 - 1)))      # sequence numbers are unsigned 64-bit
             elif kind == 'older':
                 ents.append((n, max(0, c - spec['delta'][i])))
             elif kind == 'equal':
                 ents.append((n, c))
             else:
-                ents.append((n, c + spec['delta'][i] if i % 2 == 0 else max(0, c - spec['delta'][i])))
+                ents.append((n, min(c + spec['delta'][i], 2**64 - 1) if i % 2 == 0 else max(0, c - spec['delta'][i])))
         if not ents:
             ents.append((known[0], cur(known[0]) + 1))
     elif kind == 'unknown-node':
         ents = [([C(b'n'), C(b'new%d' % spec['delta'][0])], spec['delta'][1]), (known[0], cur(known[0]))]
     elif kind == 'self-too-much':
-        ents = [(known[0], cur(known[0]) + 2), (SELF, self_seq + spec['delta'][0])]
+        ents = [(known[0], min(cur(known[0]) + 2, 2**64 - 1)), (SELF, min(self_seq + spec['delta'][0], 2**64 - 1))]
         if spec['pick'][0] < 0.5:
             ents.reverse()
     elif kind == 'self-ok':
@@ -164,6 +167,13 @@ def resolve_vector(spec, local, self_seq, nodes):
         if spec['pick'][0] < 0.5:
             ents.reverse()
         flags['partial_ok'] = True
+    elif kind == 'undecodable-inner':
+        # one entry whose node name is internally inconsistent (last component runs past the Name element but stays inside the entry)
+        # among well-formed entries that would raise the vector: the vector is not decodable, hence not an accepted vector
+        bad = rc.enc_tlv(0xca, b'\x07\x04\x08\x05ab' + rc.enc_tlv(0xcc, b'\x05'))
+        ents = [(known[0], cur(known[0]) + 4), ('raw', bad), (known[-1], cur(known[-1]) + 2)]
+        if spec['pick'][0] < 0.5:
+            ents = ents[1:] + ents[:1]
     elif kind == 'undecodable':
         ents = [(known[0], cur(known[0]) + 5)]
     elif kind == 'wrong-length':
@@ -171,6 +181,8 @@ def resolve_vector(spec, local, self_seq, nodes):
         flags['extra_comp'] = True
     elif kind == 'empty':
         ents = []
+    # sequence numbers are unsigned 64-bit integers
+    ents = [(n, (min(s_, 2**64 - 1) if isinstance(s_, int) else s_)) for n, s_ in ents]
     return ents, flags
 
 
@@ -337,8 +349,8 @@ def execute(ctx, hist, rng):
                         R['viol'].append(('publish-not-announced-promptly', 'a publication made inside the missing-data callback was not announced within 50 ms (virtual)', w))
                     heard = None
                 kind = ev[1]['kind']
-                wellformed = {nid(n): s for n, s in ents if n is not None and s is not None}
-                ignore = kind in ('undecodable', 'wrong-length', 'empty') or \
+                wellformed = {nid(n): s for n, s in ents if n is not None and s is not None and not isinstance(n, str)}
+                ignore = kind in ('undecodable', 'undecodable-inner', 'wrong-length', 'empty') or \
                     (nid(SELF) in wellformed and wellformed[nid(SELF)] > self_seq)
                 full = {k: max(model_local.get(k, 0), v) for k, v in wellformed.items()}
                 exp_full = dict(model_local)
